@@ -819,3 +819,22 @@ pub fn near_miss(rng: &mut Rng, text: &str) -> Option<String> {
     }
     Some(toks.join(" "))
 }
+
+
+/// A per-user (or per-group, per-type) report: one output file per value, `n` distinct files in one
+/// expression — more than a process may be allowed to open (RLIMIT_NOFILE can be as low as a few
+/// dozen), more destinations than one hex digit of tag can number.
+pub fn report_expression(rng: &mut Rng) -> String {
+    let n = *rng.pick(&[9usize, 17, 18, 24, 33, 49, 65]);
+    let (test, stem) = *rng.pick(&[("-uid", "user"), ("-gid", "group"), ("-links", "links"), ("-stripe-count", "stripes")]);
+    let action = *rng.pick(&["-fprint", "-fprint", "-fprint0"]);
+    let mut parts = vec![];
+    for i in 0..n {
+        parts.push(format!("{test} {i} {action} {stem}_{i}.txt"));
+    }
+    let mut out = parts.join(" -o ");
+    if rng.chance(1, 3) {
+        out = format!("-type f ( {out} )");
+    }
+    out
+}
